@@ -91,4 +91,26 @@ PROPS = {
         "assumptions": ["not covered: widths above 64 bits (BigUint branches timed out), what Simulator::dump_variables chooses to dump and when, the VCD/FST writers",
                         "width-0 values (unsized all-bit literals) encode to an empty array and are outside the contract"],
     },
+    "C16": {
+        "units": ["cdc"],
+        "level": "proof",
+        "clause": "Decision kernel: ClockDomain::compatible(a,b) <=> a or b is domain-less or a and b are the same domain (symmetric, reflexive; different named domains and named-vs-default "
+                  "are incompatible); Explicit(i) and Inferred(i) are indistinguishable to compatible, to merge(..).domain_id() and to check_clock_domain; merge: None is the identity, a "
+                  "named domain is never lost, the result is one of the operands, later crossings stay visible; check_clock_domain (real body text) records exactly one "
+                  "mismatch_clock_domain error <=> the domains are incompatible and the statement is not inside unsafe(cdc), asking the unsafe table once about the statement token "
+                  "(Kani, loop-free, symbolic ids = complete).",
+        "assumptions": ["not covered: that every assignment/connection site calls the check (call-site completeness), domain inference and propagation through conv/expression.rs",
+                        "harness stand-ins (record calls only) for Context, Comptime, Token, TokenRange, unsafe_table::contains, AnalyzerError::mismatch_clock_domain, ClockDomain::to_string"],
+    },
+    "C21": {
+        "units": ["npn"],
+        "level": "proof",
+        "clause": "npn4.rs: ALL_PERMS is exactly the 24 permutations; perm_tt / flip_inputs / NpnTransform::apply are the documented action on Boolean functions of 4 variables for every "
+                  "truth table (Kani, full u16 domain); npn_canonical(tt) returns a transform t with t.apply(tt) == canonical and canonical <= T.apply(tt) for all 768 transforms T "
+                  "(least truth table of the NPN class; Verus loop invariant), the perm_table initialiser meets its documented contract; transform_pattern(pat,t).tt() == t.apply(pat.tt()) "
+                  "for every transform and every well-formed pattern with 0..=3 gates (Kani), which with npn_canonical's contract gives 'every library pattern computes its recorded truth table'.",
+        "assumptions": ["not covered: rewrite.rs (cut enumeration, replacement) and techmap.rs - i.e. the clause 'rewriting plus technology mapping leaves every output function unchanged'",
+                        "assumed for the library lemma: HashMap behaves as a finite map, the nested enumerate builds only well-formed patterns (by inspection), best is written only at the "
+                        "anchored insertion site; OnceLock::get_or_init returns the closure's value; perm_tt/flip_inputs are external_body in the Verus job (their meaning is proved by the Kani job)"],
+    },
 }
